@@ -44,6 +44,10 @@ def gen(seed, idx, tier):
             scn["observer"] = {"output": None, "answers": ["y", "y"]}
             scn["faults"] = scn.get("faults", []) + [{"kind": "sigint", "at": {"point": "line", "func": rnd.choice(["update", "adaptive_euler_step", "solve_for_observables"]), "ordinal": rnd.randint(10, 400), "stage": "S"}}]
         scn["meta"]["lifecycle"] = True
+    if scn["device"]["terminals"] and rnd.random() < 0.25:
+        # seeded from a (short) earlier run made with ANOTHER terminal value: the state entering the
+        # first step does not carry terminal_psi on the terminal sites
+        scn["seed_phase"] = {"terminal_psi": rnd.choice([None, 0.0, 0.5, 1.0]), "steps": rnd.randint(1, 3)}
     if flavour == "randinit":
         # seeded initial state through the public psi_init attribute: |psi| > 1, exact zeros, random phases
         scn["psi_init"] = {"seed": rnd.randrange(10**6), "amp": rnd.choice([0.5, 1.0, 1.5, 3.0]), "zeros": rnd.choice([0.0, 0.1, 0.5]), "phases": rnd.random() < 0.7}
@@ -69,8 +73,46 @@ def psi_hook(spec):
     return hook
 
 
+def post(sim, h):
+    from ..common import Violation
+
+    V = []
+    for st, step, name in sim.alias_violations[:1]:
+        V.append(Violation("state-mutated-in-place", f"update {st}{step} modified the array of '{name}' it was handed in place: the reported psi^n is no longer the state the step started from", quantity=name))
+    return V
+
+
 def run(scn):
+    import copy
+
+    from ..common import Discard
+    from ..engine import run_scenario
+
     ck = C02Update()
+    seed_sol = None
+    sim0 = None
+    if scn.get("seed_phase"):
+        s0 = copy.deepcopy(scn)
+        s0.pop("seed_phase")
+        s0["faults"] = []
+        s0.pop("solve_twice", None)
+        s0["options"]["terminal_psi"] = scn["seed_phase"]["terminal_psi"]
+        s0["options"]["skip_time"] = 0.0
+        s0["options"]["solve_time"] = scn["options"]["dt_init"] * scn["seed_phase"]["steps"]
+        s0["observer"] = {"output": {"path": "seed.h5", "absolute": True}}
+        sim0, h0 = run_scenario(s0)
+        if h0.outcome != "solution":
+            sim0.cleanup()
+            raise Discard(f"seed run did not complete: {h0.outcome}")
+        seed_sol = h0.solution
+    try:
+        return _run(scn, ck, seed_sol)
+    finally:
+        if sim0 is not None:
+            sim0.cleanup()
+
+
+def _run(scn, ck, seed_sol):
     return base.physics_run(
         scn,
         [ck],
@@ -78,6 +120,8 @@ def run(scn):
         lambda h: (scn["device"]["layer"]["gamma"], scn["meta"].get("flavour"), ck.refusals > 0),
         extra=lambda h, c: {"calls": ck.calls, "refusals": ck.refusals, "deadband": ck.deadband, "overflow_skipped": ck.overflow, "max_identity_rel": ck.max_id, "max_modsq_rel": ck.max_mod},
         psi_init_hook=psi_hook(scn["psi_init"]) if scn.get("psi_init") else None,
+        seed_solution=seed_sol,
+        post=post,
     )
 
 
